@@ -166,6 +166,12 @@ package chainntnfs
 //@   props C14
 //@   bounds-safe
 //@   loop * havoc
+//@   // every way of reporting success: details already known; nothing found (status complete); found in a block the notifier has not
+//@   // reached; recorded
+//@   site return * nth 1 as already-known: assert result == nil && spendSet.details != nil
+//@   site return * nth 2 as nothing-found: assert result == nil && entry(details) == nil && spendSet.rescanStatus == rescanComplete
+//@   site return * nth 4 as ahead-of-the-notifier: assert result == nil && entry(details) != nil && wrap(entry(details).SpendingHeight, 32) > n.currentHeight
+//@   site return * nth 6 as recorded: assert result == nil && spendSet.details == entry(details) && entry(details) != nil && spendSet.rescanStatus == rescanComplete
 //@   site call CommitSpendHint nth 0: assert details == nil && arg(1) == n.currentHeight && spendSet.details == nil
 //@   site call CommitSpendHint nth 1: assert details != nil && arg(1) == wrap(details.SpendingHeight, 32) && arg(1) <= n.currentHeight && spendSet.details == nil
 //@   site store spendNtfnSet.rescanStatus: assert value == rescanComplete && spendSet.details == nil
@@ -197,6 +203,12 @@ package chainntnfs
 //@        n.currentHeight + n.reorgSafetyLimit <= 4294967295 && arg(ntfn) != nil
 //@   site call dispatchConfDetails as same-details: assert arg(details).BlockHeight == entry(details).BlockHeight &&
 //@        arg(details).BlockHash == entry(details).BlockHash && arg(details).TxIndex == entry(details).TxIndex && arg(details).Tx == entry(details).Tx
+//@   // every way of reporting success is one of: the details were already known; the rescan found nothing (status complete, hint moved to
+//@   // the tip); the result is from a block the notifier has not reached yet (left for the tip to report); or the details were recorded
+//@   site return * nth 2 as already-known: assert result == nil && confSet.details != nil
+//@   site return * nth 3 as nothing-found: assert result == nil && entry(details) == nil && confSet.rescanStatus == rescanComplete
+//@   site return * nth 4 as ahead-of-the-notifier: assert result == nil && entry(details) != nil && entry(details).BlockHeight > n.currentHeight
+//@   site return * nth 6 as recorded: assert result == nil && confSet.details == entry(details) && entry(details) != nil && confSet.rescanStatus == rescanComplete
 //@
 //@ func (n *TxNotifier) NotifyHeight
 //@   props C14
